@@ -124,7 +124,8 @@ def run_lifecycle(ctx, bfs, emit, sim, leak=None):
 
     def add(cid, steps):
         st = [{"name": a["name"], "x": a.get("x", ""), "expAttempts": a.get("obs", {}).get("attempts", 0),
-               "expNotif": len(a.get("obs", {}).get("notif", [])), "expHook": len(a.get("obs", {}).get("hook", []))} for a in steps if a["name"] != "Halt"]
+               "expNotif": len(a.get("obs", {}).get("notif", [])), "expHook": len(a.get("obs", {}).get("hook", [])),
+               "how": a.get("how", ""), "k": a.get("k", 1)} for a in steps if a["name"] != "Halt"]
         scen.append({"sc": len(scen), "cfg": drv_cfg(cid), "cfgId": cid, "steps": st})
 
     for (cid, mt, ma) in bfs:
